@@ -15,7 +15,7 @@ def sh(cmd, cwd=None, env=None, timeout=7200):
     p = subprocess.run(cmd, cwd=cwd, env=env, shell=isinstance(cmd, str), stdout=subprocess.PIPE, stderr=subprocess.STDOUT, text=True, timeout=timeout)
     return p.returncode, p.stdout
 
-def verify(src, sid, crate, features=None, rustflags=None):
+def verify(src, sid, crate, features=None, rustflags=None, testargs=None):
     WT = "/tmp/seedwt-" + sid
     dst = os.path.join(ROOT, "seeded", sid)
     os.makedirs(dst, exist_ok=True)
@@ -33,7 +33,7 @@ def verify(src, sid, crate, features=None, rustflags=None):
     os.makedirs(tdir, exist_ok=True)
     tname = "seeded_demo_" + sid.replace("-", "_").lower()
     shutil.copy(os.path.join(dst, "demo.rs"), os.path.join(tdir, tname + ".rs"))
-    cmd = ["cargo", "test", "-p", crate, "--test", tname, "--offline"] + (["--features", features] if features else [])
+    cmd = ["cargo", "test", "-p", crate, "--test", tname, "--offline"] + (["--features", features] if features else []) + (["--"] + testargs.split() if testargs else [])
     rc0, out0 = sh(cmd, cwd=WT, env=env)
     rca, outa = sh(["git", "apply", os.path.join(dst, "patch.diff")], cwd=WT)
     rc1, out1 = (None, "patch did not apply: " + outa) if rca != 0 else sh(cmd, cwd=WT, env=env)
@@ -88,6 +88,7 @@ if __name__ == "__main__":
     if a[0] == "verify":
         feats = a[a.index("--features") + 1] if "--features" in a else None
         rf = a[a.index("--rustflags") + 1] if "--rustflags" in a else None
-        verify(a[1], a[2], a[3], feats, rf)
+        ta = a[a.index("--testargs") + 1] if "--testargs" in a else None
+        verify(a[1], a[2], a[3], feats, rf, ta)
     elif a[0] == "run":
         run(a[1], a[2:])
